@@ -60,14 +60,34 @@ def props_of(pid):
     return p.get(pid, {'module': None, 'theorems': []})
 
 
+def import_closure(roots):
+    """the .lean files of this project that the given modules import, transitively (the property module, the
+    model and its driver): what a theorem of the module can depend on.  `#print axioms` below is the
+    authoritative test (it reports sorryAx and every other axiom); the text scan is an extra hygiene gate."""
+    seen, todo, files = set(), [r for r in roots if r], []
+    while todo:
+        m = todo.pop()
+        if m in seen:
+            continue
+        seen.add(m)
+        path = os.path.join(LEAN, *m.split('.')) + '.lean'
+        if not os.path.exists(path):
+            continue
+        files.append(path)
+        for line in open(path, encoding='utf-8'):
+            mm = re.match(r'\s*(?:public\s+)?import\s+([A-Za-z0-9_.]+)', line)
+            if mm:
+                todo.append(mm.group(1))
+    return sorted(files)
+
+
 def audit(pid, info):
     """grep for forbidden constructs + #print axioms of every property theorem"""
     res = {'forbidden': [], 'axioms': {}, 'ok': True}
-    for dirpath, _, files in os.walk(os.path.join(LEAN, 'H2')):
-        for f in files:
-            if not f.endswith('.lean'):
-                continue
-            path = os.path.join(dirpath, f)
+    scanned = import_closure([info.get('module'), 'Main', 'H2.Driver'])
+    res['scanned_files'] = len(scanned)
+    for path in scanned:
+        if True:
             in_block = False
             for n, line in enumerate(open(path, encoding='utf-8'), 1):
                 s = line
